@@ -100,6 +100,8 @@ pub struct Program {
     loop_stack: Vec<LoopInfo>,
     data_iterator: Option<DataIterator>,
     functions: HashMap<Symbol, FunctionDefinition>,
+    #[cfg(feature = "verif-hooks")]
+    verif_token_reads: std::cell::Cell<u64>,
 }
 
 impl Program {
@@ -518,6 +520,8 @@ impl Program {
     /// Return the next token in the stream, if it exists,
     /// but don't advance our position in it.
     pub fn peek_next_token(&self) -> Option<Token> {
+        #[cfg(feature = "verif-hooks")]
+        self.verif_token_reads.set(self.verif_token_reads.get() + 1);
         self.tokens().get(self.location.token_index).cloned()
     }
 
@@ -633,5 +637,57 @@ impl Program {
                 Some(self.get_prev_location())
             }
         };
+    }
+}
+
+#[cfg(feature = "verif-hooks")]
+impl Program {
+    pub(crate) fn verif_fill(&self, snapshot: &mut crate::verif::Snapshot) {
+        use crate::verif::{loc, nloc, tok, Frame, FunctionSnap, LoopSnap};
+        snapshot.location = loc(&self.location);
+        snapshot.breakpoint = self.breakpoint.as_ref().map(nloc);
+        snapshot.stack = self
+            .stack
+            .iter()
+            .map(|frame| Frame {
+                return_location: loc(&frame.return_location),
+                bindings: frame.variables.verif_entries(),
+            })
+            .collect();
+        snapshot.loops = self
+            .loop_stack
+            .iter()
+            .map(|info| LoopSnap {
+                symbol: info.symbol.to_string(),
+                location: loc(&info.location),
+                to_value: info.to_value,
+                step_value: info.step_value,
+            })
+            .collect();
+        snapshot.data_cursor = self.data_iterator.as_ref().map(|it| it.verif_cursor());
+        let mut functions = self
+            .functions
+            .iter()
+            .map(|(name, def)| FunctionSnap {
+                name: name.to_string(),
+                arguments: def.arguments.iter().map(|a| a.to_string()).collect(),
+                location: nloc(&def.location),
+            })
+            .collect::<Vec<_>>();
+        functions.sort_by(|a, b| a.name.cmp(&b.name));
+        snapshot.functions = functions;
+        snapshot.line_map_keys = self.numbered_lines.verif_map_keys();
+        snapshot.line_set_keys = self.numbered_lines.verif_set_keys();
+        snapshot.immediate_line = self.immediate_line.iter().map(tok).collect();
+        snapshot.token_reads = self.verif_token_reads.get();
+    }
+
+    /// The stored program as (line number, tokens), in listing order.
+    pub(crate) fn verif_lines(&self) -> Vec<(u64, Vec<crate::verif::Tok>)> {
+        self.numbered_lines
+            .list_tokens()
+            .into_iter()
+            .map(|(number, tokens)| (number, tokens.iter().map(crate::verif::tok).collect()))
+            .collect()
     }
 }
